@@ -155,6 +155,15 @@ def st_scale(ctx, s):
     s.scale(ctx.args["k"], quantise_afterwards=False)
 
 
+def st_scale_half_self_meta(ctx, s):
+    # factor < 1 goes through bar splitting of the meta sequence, which may be the sequence itself
+    s.scale(0.5, meta_sequence=s, quantise_afterwards=False)
+
+
+def st_scale_half(ctx, s):
+    s.scale(0.5, quantise_afterwards=False)
+
+
 def st_transpose(ctx, s):
     s.transpose(ctx.args["n"])
 
@@ -400,7 +409,7 @@ def queries(tier, seed):
     for c in ("n1", "n2", "n2t"):
         qs.append(q_conversion(c, wmax))
     for st in STEPS:
-        heavy = st in ("quantise", "qnl", "quantise_and_normalise", "merge", "cutoff", "transpose_wrap")
+        heavy = st in ("quantise", "qnl", "quantise_and_normalise", "merge", "cutoff", "transpose_wrap", "scale_half_self_meta", "scale_half")
         # position-sensitive steps (j-th yielded message, insertion index) are only meaningful on the list the caller sees,
         # so contents of step queries have no simultaneous events in non-canonical order (conversion normal form)
         for c in (("n1", "n2g") if tier == "quick" else ("n1", "n2", "n2g", "ill")):
